@@ -66,10 +66,8 @@ func Pre[F any](f F) F {
 	if !s.atomOn || s.Tape.Choose(s.PreemptDen) != 1 {
 		return f
 	}
-	s.Preemptions++
 	s.AtomicYields++
-	s.release(t, stInOp)
-	s.acquire(t)
+	s.preempt(t)
 	return f
 }
 
@@ -96,10 +94,8 @@ func postSend() {
 	if !s.postOn || s.Tape.Choose(s.PreemptDen) != 1 {
 		return
 	}
-	s.Preemptions++
 	s.PostSendYields++
-	s.release(t, stInOp)
-	s.acquire(t)
+	s.preempt(t)
 }
 
 func RecvBi[T any](ch chan T) T { v, _ := recvDir[T](ch); return v }
